@@ -149,6 +149,16 @@ def bad_session(rng, W, bits, via):
     return steps
 
 
+def walk_session(rot, n=9):
+    """deterministic walk over old and future counters, alternating the node's service and the standalone one"""
+    v = lambda i: VIAS[(i + rot) % 3]      # noqa
+    steps = [op("announce"), op("register")] + [op("send") for _ in range(n)]
+    steps += [op("push", "d1", n - 1, v(1)), op("push", "d1", 1, v(0)), op("push", "d1", 4, v(2)), op("deliver", "d1", 2),
+              op("push", "d1", 1, v(1)), op("push", "d1", 2, v(0)), op("push", "d1", n, v(0)), op("push", "d1", 3, v(2)),
+              op("deliver", "d1", n), op("push", "d1", 4, v(1)), op("push", "d1", n, v(2)), op("push", "d1", 1, v(0)), op("list")]
+    return steps
+
+
 def gen_scripts(ctx):
     quick = ctx.tier == "quick"
     groups = {}
@@ -183,6 +193,8 @@ def gen_scripts(ctx):
         for j in range(9 if quick else 66):
             # one sender, two senders in one group, one sender in two groups shared with the receiver
             add(W, N, blind_session(ctx.rng, W, N, ctx.rng.choice([14, 20, 28]), [["d1"], ["d1", "e1"], ["d1", "d2"]][j % 3]), "blind")
+        for rot in range(1 if quick else 3):
+            add(W, N, walk_session(rot), "walk")
     # (iii) malformed requests
     for (W, N) in ([(2, 2), (100, 100)] if quick else cfgs):
         for via in VIAS if not quick else ["svc", "off"]:
